@@ -486,3 +486,14 @@ Lemma thm_strategy_subset_results_any_cap :
     (forall T, In T (glued_of 1%N host p) -> exists T', In T' (glued_of 0%N host p) /\ obs_eq T T') /\
     (forall T, In T (glued_of 2%N host p) -> exists T', In T' (glued_of 0%N host p) /\ obs_eq T T').
 Proof. intros TH host p H. apply glued_subset_all_any_cap. apply side_okb_ok. exact H. Qed.
+
+Lemma thm_result_set_invariant_exhaustive_any_options_checked :
+  forall (TH : Thr) (pref : bool) (sg pi : N -> N), inj sg -> inj pi ->
+  forall (host0 host : hostg) (p0 p : prepared),
+    side_okb0 host0 p0 = true -> side_okb0 host p = true ->
+    C06_Model.wfb (host_c06 host0) = true -> C06_Model.wfb (host_c06 host) = true ->
+    C06_Model.wfb (pat_c06 (p_pat p0)) = true -> C06_Model.wfb (pat_c06 (p_pat p)) = true ->
+    same_graph (relabel pi host0) host -> same_graph (relabel sg (p_rc p0)) (p_rc p) -> same_graph (relabel sg (p_pat p0)) (p_pat p) ->
+    (forall T, In T (glued_of_pf pref 0%N host0 p0) -> exists T', In T' (glued_of_pf pref 0%N host p) /\ obs_eq (relabel pi T) T') /\
+    (forall T', In T' (glued_of_pf pref 0%N host p) -> exists T, In T (glued_of_pf pref 0%N host0 p0) /\ obs_eq (relabel pi T) T').
+Proof. intros TH pref sg pi Hs Hp host0 host p0 p. apply glued_set_any_options_checked; assumption. Qed.
